@@ -2,6 +2,8 @@ pub mod common;
 pub mod c01;
 pub mod c02;
 pub mod c03;
+pub mod c04;
+pub mod c09;
 pub mod c10;
 pub mod c11;
 pub mod c13;
@@ -22,6 +24,8 @@ pub const PROPS: &[PropEntry] = &[
     PropEntry { id: "C01", run: c01::run_check, case: c01::case },
     PropEntry { id: "C02", run: c02::run_check, case: c02::case },
     PropEntry { id: "C03", run: c03::run_check, case: c03::case },
+    PropEntry { id: "C04", run: c04::run_check, case: c04::case },
+    PropEntry { id: "C09", run: c09::run_check, case: c09::case },
     PropEntry { id: "C10", run: c10::run_check, case: c10::case },
     PropEntry { id: "C11", run: c11::run_check, case: c11::case },
     PropEntry { id: "C13", run: c13::run_check, case: c13::case },
